@@ -142,9 +142,212 @@ def generate_descs(path, cls_all):
     return descs
 
 
+# ---------------------------------------------------------------------------------------------- count / length slots
+
+def _fn_ast(f):
+    import ast
+    import textwrap
+    f = getattr(f, 'fset', f)
+    f = getattr(f, '__func__', f)
+    try:
+        return ast.parse(textwrap.dedent(inspect.getsource(f))).body[0]
+    except (OSError, TypeError, SyntaxError, IndentationError):
+        return None
+
+
+def setter_limits(func, cls):
+    """`if <subject> > <bound>: raise ...` tests of a setter: [(subject source, bound value)].  Bounds may be literals or names assigned
+    earlier in the function from class constants (`siz_lim = 10**self._size_len - 1`); a flag variable set from such a comparison
+    (`len_cond = (len(value) > siz_lim)`) followed by `if len_cond: raise` counts too."""
+    import ast
+    fn = _fn_ast(func)
+    if fn is None:
+        return None
+    env = {}
+    flags = {}
+    out = []
+
+    def ev(node):
+        src = ast.unparse(node)
+        try:
+            return eval(compile(ast.Expression(node), '<limit>', 'eval'), {'__builtins__': {'getattr': getattr, 'int': int}, 'self': cls}, dict(env))
+        except Exception:
+            raise ValueError('bound is not a class constant: ' + src)
+
+    def compare1(node):
+        if isinstance(node, ast.Compare) and len(node.ops) == 1 and isinstance(node.ops[0], (ast.Gt, ast.GtE)):
+            try:
+                bound = ev(node.comparators[0])
+            except ValueError:
+                return None
+            if isinstance(node.ops[0], ast.GtE):
+                bound -= 1
+            return ast.unparse(node.left), int(bound)
+        return None
+
+    def compares(node):
+        """upper-bound comparisons anywhere in a test: `a > c`, `numpy.any(a > c)`, `p or q`"""
+        found = []
+        for sub in ast.walk(node):
+            c = compare1(sub)
+            if c is not None:
+                found.append(c)
+        return found
+
+    def compare(node):
+        c = compares(node)
+        return c[0] if c else None
+    for st in ast.walk(fn):
+        if isinstance(st, ast.Assign) and len(st.targets) == 1 and isinstance(st.targets[0], ast.Name):
+            c = compare(st.value)
+            if c is not None:
+                flags.setdefault(st.targets[0].id, []).append(c)
+            else:
+                try:
+                    env[st.targets[0].id] = ev(st.value)
+                except ValueError:
+                    pass
+    for st in ast.walk(fn):
+        if isinstance(st, ast.If) and any(isinstance(b, ast.Raise) for b in st.body):
+            cs = compares(st.test)
+            if cs:
+                out += cs
+            elif isinstance(st.test, ast.Name) and st.test.id in flags:
+                out += flags[st.test.id]
+    return out
+
+
+def _format_width(func, what):
+    """width of the `{..:0Nd}` in a format string literal of the function, N literal"""
+    import ast
+    import re
+    fn = _fn_ast(func)
+    if fn is None:
+        return None
+    for n in ast.walk(fn):
+        if isinstance(n, ast.Constant) and isinstance(n.value, str):
+            m = re.findall(r'\{' + what + r':0(\d+)d\}', n.value)
+            if m:
+                return int(m[0])
+    return None
+
+
+def slots(cls_all=None):
+    """every loop-count field and every length field of the element classes and of the TRE envelope:
+    {'name': {'width': digits, 'extra': what the encoder adds to what the setter looks at, 'limit': the setter's bound or None,
+              'subject': what the setter measures, 'src': where each number comes from}}"""
+    from sarpy.io.general.nitf_elements import base as B
+    from sarpy.io.general.nitf_elements.image import ImageBand
+    cls_all = cls_all or classes()
+    out = {}
+
+    def pick(lims, *needles):
+        for subj, bound in lims or []:
+            if any(n in subj for n in needles):
+                return subj, bound
+        return None, None
+    for n, c in sorted(cls_all.items()):
+        if issubclass(c, B.NITFLoop) and c._child_class is not None:
+            # the widest count the class can announce: ImageBands escapes to XBANDS_LEN digits
+            w = int(getattr(c, 'XBANDS_LEN', c._count_size))
+            lims = []
+            for k in c.__mro__:
+                if 'values' in k.__dict__ and isinstance(k.__dict__['values'], property):
+                    lims += setter_limits(k.__dict__['values'], c) or []
+            subj, lim = pick(lims, 'len(value)')
+            out[f'{n}.count'] = {'width': w, 'extra': 0, 'limit': lim, 'subject': 'len(values)',
+                                 'src': 'width: XBANDS_LEN / _count_size (reflected); limit: AST of the values setters'}
+        elif issubclass(c, B._ItemArrayHeaders) and c is not B._ItemArrayHeaders:
+            w = _format_width(c.to_bytes, '0') or 3
+            lims = setter_limits(B._ItemArrayHeaders.__init__, c) or []
+            out[f'{n}.count'] = {'width': w, 'extra': 0, 'limit': pick(lims, 'subhead_sizes.size', 'item_sizes.size')[1], 'subject': 'subhead_sizes.size',
+                                 'src': "width: '{0:03d}' in to_bytes (AST); limit: AST of __init__"}
+            out[f'{n}.subhead_size'] = {'width': int(c._subhead_len), 'extra': 0, 'limit': ([b for s_, b in lims if s_ == 'subhead_sizes'] or [None])[0],
+                                        'subject': 'subhead_sizes[i]', 'src': 'width: _subhead_len (reflected); limit: AST of __init__'}
+            out[f'{n}.item_size'] = {'width': int(c._item_len), 'extra': 0, 'limit': ([b for s_, b in lims if s_ == 'item_sizes'] or [None])[0],
+                                     'subject': 'item_sizes[i]', 'src': 'width: _item_len (reflected); limit: AST of __init__'}
+        elif issubclass(c, B.Unstructured) and isinstance(getattr(c, '_size_len', None), int):
+            lims = setter_limits(B.Unstructured.__dict__['data'], c) if 'data' not in c.__dict__ else setter_limits(c.__dict__['data'], c)
+            subj, lim = pick(lims, 'len(value)', 'get_bytes_length')
+            extra = int(getattr(c, '_ofl_len', 0)) if issubclass(c, B.UserHeaderType) else 0
+            out[f'{n}.length'] = {'width': int(c._size_len), 'extra': extra, 'limit': lim, 'subject': 'len(data)',
+                                  'src': 'width: _size_len, extra: _ofl_len (reflected); limit: AST of the data setter (' + str(subj) + ')'}
+    lims = setter_limits(ImageBand.__dict__['LUTD'], ImageBand)
+    out['ImageBand.NLUTS'] = {'width': 1, 'extra': 0, 'limit': pick(lims, 'shape[0]')[1], 'subject': 'LUTD.shape[0]',
+                              'src': 'width transcribed (as in tables_nitf2); limit: AST of the LUTD setter'}
+    out['ImageBand.NELUT'] = {'width': 5, 'extra': 0, 'limit': pick(lims, 'shape[1]')[1], 'subject': 'LUTD.shape[1]',
+                              'src': 'width transcribed (as in tables_nitf2); limit: AST of the LUTD setter'}
+    w = None
+    import re
+    src = inspect.getsource(B.UnknownTRE.to_bytes)
+    m = re.findall(r'\{1:0(\d+)d\}', src)
+    out['UnknownTRE.CEL'] = {'width': int(m[0]) if m else 5, 'extra': 0, 'limit': pick(setter_limits(B.UnknownTRE.__init__, B.UnknownTRE), 'len(data)')[1],
+                             'subject': 'len(data)', 'src': "width: '{1:05d}' in to_bytes (source); limit: AST of __init__"}
+    return out
+
+
+def generate_slots(path, cls_all):
+    """Gen/NitfSlots.lean: the slots as `Spec.NitfAssign.Slot`; `slots_ok` over the rows whose setter limit respects the capacity,
+    a kernel-checked negation witness for each of the others (the harness reports those under a stable key)"""
+    sl = slots(cls_all)
+
+    def ok(r):
+        return r['limit'] is not None and r['limit'] + r['extra'] <= 10 ** r['width'] - 1
+
+    def lean(r):
+        return f"⟨{r['width']}, {r['extra']}, {'none' if r['limit'] is None else '(some %d)' % r['limit']}⟩"
+    good = [(k, r) for k, r in sl.items() if ok(r)]
+    bad = [(k, r) for k, r in sl.items() if not ok(r)]
+    lines = ['-- GENERATED by translate/tables_nitf.py from /repo (do not edit; regenerated on every check run)',
+             'import SarpyModel.Props.C13a', 'namespace Sarpy.Gen.NitfSlots', 'open Sarpy.Spec.FieldFmt Sarpy.Spec.NitfAssign', '',
+             '/-- count / length fields whose setter keeps what is written within the digits of the field -/',
+             'def slots : List (String × Slot) := [',
+             ',\n'.join(f'  ("{k}", {lean(r)})' for k, r in good), ']', '',
+             '/-- count / length fields whose setter has no test, or a limit above the capacity of the digits -/',
+             'def unguarded : List (String × Slot) := [',
+             ',\n'.join(f'  ("{k}", {lean(r)})' for k, r in bad), ']', '',
+             'theorem slots_ok : slots.all (fun s => slotOk s.2) = true := by decide +kernel',
+             '',
+             '/-- for every guarded slot: whatever the setter lets through is written in exactly the width of the field -/',
+             'theorem slots_fit : ∀ s ∈ slots, ∀ n : Nat, setterAccepts s.2 n = true →',
+             '    acceptInt s.2.width ((n + s.2.extra : Nat) : Int) = true ∧ (renderCount s.2 n).length = s.2.width := by',
+             '  intro s hs n ha',
+             '  exact Sarpy.Props.C13a.slot_accepts_fits (List.all_eq_true.mp slots_ok s hs) ha',
+             '',
+             '/-- for every unguarded slot the setter lets through a count / length that the digits cannot hold (negation witness) -/',
+             'theorem unguarded_not_ok : unguarded.all (fun s => !slotOk s.2) = true := by decide +kernel',
+             '',
+             'theorem unguarded_overflow : ∀ s ∈ unguarded, ∃ n, setterAccepts s.2 n = true ∧',
+             '    acceptInt s.2.width ((n + s.2.extra : Nat) : Int) = false := by',
+             '  intro s hs',
+             '  have h := List.all_eq_true.mp unguarded_not_ok s hs',
+             '  exact Sarpy.Props.C13a.slot_not_ok_has_overflow (by simpa using h)',
+             '', 'end Sarpy.Gen.NitfSlots']
+    text = '\n'.join(lines) + '\n'
+    old = open(path).read() if os.path.exists(path) else None
+    if old != text:
+        with open(path, 'w') as f:
+            f.write(text)
+    for k, r in sl.items():
+        r['ok'] = ok(r)
+        cls = k.split('.')[0]
+        if k == 'UserHeaderType.length':
+            r['key'] = 'UserHeaderType.data:limit-ignores-the-OFL-bytes'
+        elif k == 'UnknownTRE.CEL':
+            r['key'] = 'UnknownTRE.data:no-limit-on-the-payload-length'
+        elif k.endswith('Type.count') or k.endswith('_size'):
+            r['key'] = '_ItemArrayHeaders:no-limit-on-count-or-sizes'
+        elif k.endswith('.count'):
+            r['key'] = 'NITFLoop.values:no-limit-on-the-number-of-items'
+        else:
+            r['key'] = f'{k}:setter-limit-exceeds-the-capacity-of-the-field'
+    return sl
+
+
 def generate(path):
     from sarpy.io.general.nitf_elements import base as B
     cls_all = classes()
+    slot_rows = generate_slots(os.path.join(os.path.dirname(path), 'NitfSlots.lean'), cls_all)
     descs = generate_descs(os.path.join(os.path.dirname(path), 'NitfDescs.lean'), cls_all)
     tables = {}
     ovr = {}
@@ -180,7 +383,7 @@ def generate(path):
     if old != text:
         with open(path, 'w') as f:
             f.write(text)
-    return {'tables': tables, 'overrides': ovr, 'loops': loops, 'changed': old != text, 'descriptors': descs}
+    return {'tables': tables, 'overrides': ovr, 'loops': loops, 'changed': old != text, 'descriptors': descs, 'slots': slot_rows}
 
 
 if __name__ == '__main__':
